@@ -28,7 +28,7 @@ BINOPS = {'+':ast.Add,'-':ast.Sub,'*':ast.Mult,'/':ast.Div,'//':ast.FloorDiv,'%'
 CMPOPS = {'==':ast.Eq,'!=':ast.NotEq,'<':ast.Lt,'<=':ast.LtE,'>':ast.Gt,'>=':ast.GtE,'is':ast.Is,'is_not':ast.IsNot,'in':ast.In,'not_in':ast.NotIn}
 
 class Adapter:
-    def __init__(self): self.dropped=[]
+    def __init__(self): self.dropped=[]; self.cdecls=[]   # cdecls: (name, C scalar type, is a typed buffer, line) for every C-typed parameter and local
     def loc(self, node, new):
         if getattr(node,'pos',None):
             new.lineno=node.pos[1]; new.col_offset=node.pos[2]; new.end_lineno=node.pos[1]; new.end_col_offset=node.pos[2]
@@ -110,9 +110,11 @@ class Adapter:
         for d in n.declarators:
             base=d
             while not isinstance(base, N.CNameDeclaratorNode): base=base.base
+            self.cdecls.append((str(base.name), self.cbase(n.base_type), isinstance(n.base_type, N.MemoryViewSliceTypeNode), n.pos[1]))
             if base.default is not None:
                 out.append(ast.Assign([ast.Name(str(base.name), ast.Store())], self.expr(base.default)))
                 out[-1]._ctype = self.ctype(n.base_type)
+                out[-1]._cbase = self.cbase(n.base_type)
         self.dropped.append(('cdef', n.pos[1]))
         return out
     def ctype(self, t):
@@ -123,6 +125,16 @@ class Adapter:
         if isinstance(t, N.CQualifierTypeNode):
             return self.ctype(t.base_type)
         return str(getattr(t, 'name', None))
+    def cbase(self, t):
+        """C scalar type name behind a declaration: 'double' for `double x`, `const double[:, ::1] x` ..."""
+        if isinstance(t, N.MemoryViewSliceTypeNode):
+            return self.cbase(t.base_type_node)
+        if isinstance(t, N.CQualifierTypeNode):
+            return self.cbase(t.base_type)
+        name = str(getattr(t, 'name', None))
+        if getattr(t, 'longness', 0) and name == 'int':
+            name = 'long long' if t.longness == 2 else 'long'
+        return name
     def args(self, arglist):
         a=[]; defaults=[]
         for arg in arglist:
@@ -130,6 +142,9 @@ class Adapter:
             while not isinstance(d, N.CNameDeclaratorNode): d=d.base
             name = d.name or arg.base_type.name   # untyped arg: the "type" is the name
             a.append(ast.arg(str(name), annotation=ast.Constant(self.ctype(arg.base_type)) if d.name else None))
+            if d.name:
+                a[-1].annotation._cbase = self.cbase(arg.base_type)
+                self.cdecls.append((str(name), self.cbase(arg.base_type), isinstance(arg.base_type, N.MemoryViewSliceTypeNode), arg.pos[1]))
             if arg.default is not None: defaults.append(self.expr(arg.default))
         return ast.arguments(posonlyargs=[], args=a, vararg=None, kwonlyargs=[], kw_defaults=[], kwarg=None, defaults=defaults)
     def decos(self, n): return [self.expr(d.decorator) for d in (n.decorators or [])]
